@@ -807,6 +807,50 @@ func c05(run *ev.Run, tier string) {
 			}
 		}
 	})
+	// the command line tool prepares the plan of the packager it was asked for and of no
+	// other: entries addressed to another packager that collide among themselves (or
+	// whose type only exists elsewhere) are no part of this plan and do not fail it
+	if bin := nfpmBin(run); bin != "" {
+		cdir := newWorkDir("c05-cli")
+		a, b := filepath.Join(cdir, "a.txt"), filepath.Join(cdir, "b.txt")
+		_ = os.WriteFile(a, []byte("a\n"), 0o644)
+		_ = os.WriteFile(b, []byte("b\n"), 0o644)
+		for _, other := range formats {
+			var y strings.Builder
+			y.WriteString("name: others\narch: amd64\nversion: 1.0.0\nmaintainer: \"O <o@example.com>\"\ndescription: d\nmtime: 2017-07-14T02:40:00Z\nrpm:\n  buildhost: verif-host\ncontents:\n")
+			y.WriteString("  - src: " + a + "\n    dst: /opt/others/plain.txt\n")
+			y.WriteString("  - src: " + a + "\n    dst: /opt/others/clash\n    packager: " + other + "\n")
+			y.WriteString("  - src: " + b + "\n    dst: /opt/others/clash\n    packager: " + other + "\n")
+			y.WriteString("  - src: " + b + "\n    dst: /opt/others/clash/beneath.txt\n    packager: " + other + "\n")
+			cfgp := filepath.Join(cdir, "others-"+other+".yaml")
+			_ = os.WriteFile(cfgp, []byte(y.String()), 0o644)
+			for _, f := range formats {
+				run.Case("cli-collision-among-entries-of-another-packager|"+other+"|"+f, true)
+				target := filepath.Join(cdir, "out."+f)
+				_ = os.Remove(target)
+				so, se, code, err := runCmd(nil, cdir, nil, bin, "package", "-f", cfgp, "-p", f, "-t", target)
+				out := string(so) + string(se)
+				if f == other {
+					if err == nil && code == 0 {
+						run.Violate("C05/cli/collision-accepted/same-destination", map[string]any{"format": f, "output": ev.Short(out, 200)})
+					} else if !strings.Contains(out, "content collision") {
+						run.Violate("C05/cli/collision-not-named", map[string]any{"format": f, "output": ev.Short(out, 300)})
+					}
+					continue
+				}
+				if err != nil || code != 0 {
+					run.Violate("C05/cli/entries-of-another-packager-fail-the-plan", map[string]any{"format": f, "entries_addressed_to": other, "exit": code, "output": ev.Short(out, 300)})
+					continue
+				}
+				raw, _ := os.ReadFile(target)
+				p := dec.Decode(f, raw, false)
+				if len(p.Errs) > 0 || p.Find("/opt/others/plain.txt") == nil || p.Find("/opt/others/clash") != nil {
+					run.Violate("C05/cli/entries-of-another-packager-in-the-plan", map[string]any{"format": f, "entries_addressed_to": other, "decode_errors": p.Errs})
+				}
+			}
+		}
+		removeWorkDir(cdir)
+	}
 	run.Set("generated_lists_prepared", big)
 	run.Set("plans_from_one_parsed_configuration_compared", sharedPlans)
 	run.Set("total_wall_s", int(time.Since(t0).Seconds()))
